@@ -57,6 +57,10 @@ def one_repair(sess, suite, n, t, kind, hsize, pkind):
     for j in helpers:
         r = sess.call("repair2 %s deltas=%s" % (suite, ",".join(deltas[i][j] for i in helpers)), EXACT, "repair2")
         sigmas.append(r["sigma"])
+    # deltas and sigmas travel between helpers and to the participant as bytes: Delta / Sigma serialize-deserialize is the identity
+    for kind, val in (("delta", deltas[helpers[0]][helpers[-1]]), ("sigma", sigmas[0]), ("sigma", sigmas[-1])):
+        tr = sess.call("prim %s t=%s b=%s" % (suite, kind, val), EXACT, "transport-" + kind)
+        sess.oracle(tr.ok and tr["re"] == val, "a repair %s does not survive its byte encoding (%s)" % (kind, tr.raw[:70]), [sess.records[-1][0]])
     r = sess.call("repair3 %s sigmas=%s id=%s pkp=%s" % (suite, ",".join(sigmas), p, pkp), EXACT, "repair3")
     if not sess.oracle(r.ok, "repair_share_part3 failed (%s)" % r.raw, rp()):
         return
